@@ -185,10 +185,14 @@ fn enumerate_cfgs(spec: &FileSpec, seed: u64, fault_cap: usize, baseline_len: us
 			});
 		}
 		for &i in &idxs {
-			let kind = match i % 4 {
+			// (the KIND of the error is a dimension too: only `Interrupted` means "try again"; WouldBlock and TimedOut are
+			// errors like any other to a blocking writer)
+			let kind = match i % 6 {
 				0 => SinkFaultKind::Hard(IoErrKind::Other),
 				1 => SinkFaultKind::Hard(IoErrKind::BrokenPipe),
 				2 => SinkFaultKind::Hard(IoErrKind::StorageFull),
+				3 => SinkFaultKind::Hard(IoErrKind::WouldBlock),
+				4 => SinkFaultKind::Hard(IoErrKind::TimedOut),
 				_ => SinkFaultKind::Zero,
 			};
 			cfgs.push(SinkCfg {
@@ -257,7 +261,7 @@ impl Prop for C16 {
 	fn rule(&self) -> &'static str {
 		"A scenario is a writer history without failing values (fixed sync marker) executed once against an accept-everything sink (baseline stream B), then against every configuration of the enumerated space: \
 		 Fixed(k) for k in {1,2,3,5,7,15,16,17,19,20,21,4096} and a random 3-cycle, each with a sink that implements write_vectored (accepting across slice boundaries) and one that only implements write; \
-		 on two base plans: ErrorKind::Interrupted at EVERY sink call index (singly and in bursts of 3); a hard error (Other | BrokenPipe | StorageFull) and Ok(0) at EVERY sink call index (capped at fault_cap indices per base plan on long streams, then the first 24 + evenly spread). \
+		 on two base plans: ErrorKind::Interrupted at EVERY sink call index (singly and in bursts of 3); a hard error (Other | BrokenPipe | StorageFull | WouldBlock | TimedOut) and Ok(0) at EVERY sink call index (capped at fault_cap indices per base plan on long streams, then the first 24 + evenly spread). \
 		 An evaluation is one complete history executed against one sink configuration. Non-trivial = a partial accept or a fault fired; distinct = distinct (fault kind, class of the call hit: file-header | block-header | block-data | block-sync | plain-write, vectored?, slice in which the first partial accept ended, outcome). Vectored sinks also accept exactly n whole slices; an Interrupted at i may be followed by a hard error at j > i; after a CLEAN hard failure (nothing of the call accepted) the history goes on against the recovered sink and the final stream must be the baseline's or, judged by the reference parser, a valid file holding every other call's values in order plus all or none of the failed call's (serialize_all excepted: it stops at the failing item by contract). Five more configurations interrupt every 2nd / 3rd / 5th sink call over the WHOLE life of the writer (the number of interruptions grows with the history: hundreds to thousands). One workload in forty is a LONG history (250-400 values, a block per value or every few values). One workload in twenty-five is a big-blob workload (block sizes across the 8 / 32 / 64 KiB marks, contents from all zeros to incompressible). One workload in twelve carries a block of several KiB."
 	}
 	fn assumptions(&self) -> Vec<String> {
